@@ -8,10 +8,15 @@ range, origin, voxel size, array content and length, integer width, given scale 
 import StirVerif.C10.ProofsGeom
 import StirVerif.C10.ProofsWrite
 import StirVerif.C10.ProofsExam
+import StirVerif.C10.ProofsContainer
 
 namespace StirVerif.C10
 
-/-! ## Positions -/
+/-! ## Positions
+
+(The header of a dynamic / parametric Interfile image is written from the geometry of its first member and every
+member is read back with the geometry built from that header; the members of a Multi image are single images.  The
+correspondence run replays `whdr`/`rhdr` for every header and every member read back.) -/
 
 /-- "Writing an image to file and reading it back preserves, for every voxel, its physical position … for all index
     ranges, origins, voxel sizes": when the header numbers are printed exactly, the `k`-th voxel (per axis, counted
@@ -64,7 +69,12 @@ theorem C10_read_range (h : Header) (hy : 0 ≤ h.size.y) (hx : 0 ≤ h.size.x) 
       (readGeom h).minI = ⟨0, -(h.size.y / 2), -(h.size.x / 2)⟩ :=
   ⟨read_range_size h, by simp only [readGeom, geomWithMin]; exact readMin_centred h.size hy hx⟩
 
-/-! ## Values: scaled integer output -/
+/-! ## Values: scaled integer output
+
+`write_basic_interfile` writes every data set of a dynamic or parametric image with the same `write_data`, each
+with a scale factor of its own (interfile.cxx:855-861, 902-908), and the Multi formats write every member as a
+single image: the theorems of this and the next two sections apply per data set / member (the correspondence run
+replays `fsf` and `conv` for every data set of every container). -/
 
 /-- "scaled integer output, which never overflows the chosen type … for all number types … and scale factors":
     with the scale factor `find_scale_factor` returns (for any requested scale ≥ 0) the correctly rounded quotient of
@@ -220,7 +230,9 @@ theorem C10_write_fails_unsigned_all_negative : (writeData (.int false 8) 0 [[-1
 /-! ## Truncated data files -/
 
 /-- "A data file shorter than its header announces is reported as an error rather than returned as an image":
-    at the level of the model of `read_data` (stream semantics assumed). -/
+    at the level of the model of `read_data` (stream semantics assumed).  One data set: a single image, also one
+    written with several time frame definitions (`read_interfile_image` reads from the first offset only), and each
+    member of a Multi image (`C10_truncated_multi_member_rejected`). -/
 theorem C10_truncated_file_rejected (offset sizeAll bytes fileLen : Nat) (h : fileLen < offset + sizeAll * bytes) :
     readDataset offset sizeAll bytes fileLen = .error () :=
   truncated_file_rejected offset sizeAll bytes fileLen h
@@ -228,6 +240,53 @@ theorem C10_truncated_file_rejected (offset sizeAll bytes fileLen : Nat) (h : fi
 theorem C10_complete_file_accepted (offset sizeAll bytes fileLen : Nat) (h : offset + sizeAll * bytes ≤ fileLen) :
     readDataset offset sizeAll bytes fileLen = .ok () :=
   complete_file_accepted offset sizeAll bytes fileLen h
+
+/-- … for a dynamic or parametric Interfile image (`nsets` data sets of `sizeAll·bytes` bytes in one data file, at the
+    offsets `write_basic_interfile` announces; modality other than NM): a file shorter than the `nsets·sizeAll·bytes`
+    bytes announced is rejected, at every length. -/
+theorem C10_truncated_container_rejected (nsets sizeAll bytes fileLen : Nat) (h : fileLen < nsets * (sizeAll * bytes)) :
+    readDatasets false (datasetOffsets nsets sizeAll bytes) sizeAll bytes fileLen = .error () :=
+  truncated_container_rejected nsets sizeAll bytes fileLen h
+
+theorem C10_complete_container_accepted (nsets sizeAll bytes fileLen : Nat) (h : nsets * (sizeAll * bytes) ≤ fileLen) :
+    readDatasets false (datasetOffsets nsets sizeAll bytes) sizeAll bytes fileLen = .ok () :=
+  complete_container_accepted nsets sizeAll bytes fileLen h
+
+example : datasetOffsets 3 6 2 = [0, 12, 24] ∧ (35 : Nat) < 3 * (6 * 2) := by decide
+
+/-- … whatever offsets the header announces (not NM): a file that ends before the end of any announced data set -/
+theorem C10_truncated_dataset_rejected (offsets : List Nat) (o : Nat) (ho : o ∈ offsets) (sizeAll bytes fileLen : Nat)
+    (h : fileLen < o + sizeAll * bytes) : readDatasets false offsets sizeAll bytes fileLen = .error () :=
+  truncated_dataset_rejected offsets o ho sizeAll bytes fileLen h
+
+/-- the full statement for Interfile images with several data sets of any modality — false for NM, see below -/
+def C10_truncated_container_rejected_all_modalities : Prop :=
+  ∀ (nm : Bool) (nsets sizeAll bytes fileLen : Nat), fileLen < nsets * (sizeAll * bytes) →
+    readDatasets nm (datasetOffsets nsets sizeAll bytes) sizeAll bytes fileLen = .error ()
+
+/-- **the code violates the clause for modality NM** (known finding: `data offset in bytes` is not a registered key
+    after `!type of data := Tomographic`): every data set is read from offset 0, so a file that holds one data set is
+    returned as an image although the header announces `nsets` of them. -/
+theorem C10_truncated_container_NM_accepted (offsets : List Nat) (sizeAll bytes fileLen : Nat)
+    (h : sizeAll * bytes ≤ fileLen) : readDatasets true offsets sizeAll bytes fileLen = .ok () :=
+  nm_container_accepted_when_one_dataset_fits offsets sizeAll bytes fileLen h
+
+theorem C10_truncated_container_rejected_all_modalities_fails : ¬ C10_truncated_container_rejected_all_modalities := by
+  intro h
+  have h1 := h true 2 6 4 24 (by decide)
+  rw [C10_truncated_container_NM_accepted _ 6 4 24 (by decide)] at h1
+  cases h1
+
+/-- … for a Multi image (every member a single image in a data file of its own): one short member file is enough -/
+theorem C10_truncated_multi_member_rejected (sizeAll bytes : Nat) (lens : List Nat) (len : Nat) (hl : len ∈ lens)
+    (h : len < sizeAll * bytes) : readMembers sizeAll bytes lens = .error () :=
+  truncated_member_rejected sizeAll bytes lens len hl h
+
+theorem C10_complete_multi_accepted (sizeAll bytes : Nat) (lens : List Nat) (h : ∀ len ∈ lens, sizeAll * bytes ≤ len) :
+    readMembers sizeAll bytes lens = .ok () :=
+  complete_members_accepted sizeAll bytes lens h
+
+example : (23 : Nat) ∈ [24, 23, 24] ∧ 23 < 6 * 4 := by decide
 
 /-! ## Exam information -/
 
@@ -272,5 +331,51 @@ theorem C10_exam_roundtrip_all_fails : ¬ C10_exam_roundtrip_all := by
   have h2 := zero_duration_frame_lost ⟨1, 0, 0, -1, -1, -1, [(5, 5)], "", -1, -1⟩ 5 rfl none
   rw [h1] at h2
   simp [Exam.normalised] at h2
+
+/-! ### exam information of single images and of the members of dynamic images -/
+
+/-- "… survives the round trip" for a single image with at most one time frame: `read_interfile_image` returns what
+    the header reader reconstructed (`C10_exam_roundtrip_partial`). -/
+theorem C10_exam_single_roundtrip_partial (e : Exam) (h : e.Storable) (h1 : e.frames.length ≤ 1) :
+    singleExam (readExam (writeExam e) none) = e.normalised :=
+  single_exam_roundtrip e h h1
+
+/-- the full statement for single images — false: of several time frames attached to a single image only the first
+    is read back (`read_interfile_image`: "Only the first will be kept"; every other field survives) -/
+def C10_exam_single_roundtrip_all_frames : Prop :=
+  ∀ e : Exam, e.Storable → singleExam (readExam (writeExam e) none) = e.normalised
+
+theorem C10_exam_single_keeps_first_frame (e : Exam) (h : e.Storable) (p q : Rat × Rat) (r : List (Rat × Rat))
+    (hfr : e.frames = p :: q :: r) :
+    singleExam (readExam (writeExam e) none) = { e.normalised with frames := [p] } :=
+  single_exam_keeps_first e h p q r hfr
+
+theorem C10_exam_single_roundtrip_all_frames_fails : ¬ C10_exam_single_roundtrip_all_frames := by
+  intro h
+  have hs : Exam.Storable ⟨1, 0, 0, -1, -1, -1, [(0, 10), (10, 30)], "", -1, -1⟩ := by
+    constructor <;> simp
+    norm_num
+  have h1 := h _ hs
+  rw [C10_exam_single_keeps_first_frame _ hs (0, 10) (10, 30) [] rfl] at h1
+  simp [Exam.normalised] at h1
+
+/-- "time frames … survive": member `f` of a dynamic Interfile image is read back with every stored field of the
+    exam information that was written and with exactly its own time frame. -/
+theorem C10_exam_member_roundtrip_partial (e : Exam) (h : e.Storable) (f : Nat) (hf1 : 1 ≤ f) (hf : f ≤ e.frames.length) :
+    memberExam (readExam (writeExam e) none) f =
+      some { e.normalised with frames := [e.frames[f - 1]'(by omega)] } :=
+  member_exam_roundtrip e h f hf1 hf
+
+example : Exam.Storable ⟨2, 0, 2, -1, 0, 650, [(0, 10), (10, 30), (31, 40)], "Verif-3", 100, 1 / 2⟩ ∧ 1 ≤ 3 ∧
+    3 ≤ ([(0, 10), (10, 30), (31, 40)] : List (Rat × Rat)).length := by
+  refine ⟨?_, by decide, by decide⟩
+  constructor <;> simp
+  norm_num
+
+/-- a Multi dynamic image is assembled from its members: all fields of the first member, frame `i` := the time frame
+    of member `i` (each member being a single image with one frame, `C10_exam_single_roundtrip_partial`) -/
+theorem C10_exam_multi_dynamic (first : Exam) (rest : List Exam) (h : ∀ m ∈ first :: rest, m.frames.length = 1) :
+    multiDynExam (first :: rest) = some { first with frames := (first :: rest).map fun m => m.frames.headD (0, 0) } :=
+  multi_dyn_exam first rest h
 
 end StirVerif.C10
